@@ -37,7 +37,7 @@ NS4 = {"http://a.org/": "", "http://b.org/": "weso-s", "http://c.org/": "shapes"
 
 @st.composite
 def cases(draw):
-    chan = draw(st.sampled_from(["nt", "nt", "tsv", "turtle_iter", "turtle", "rdflib", "sm", "endpoint"]))
+    chan = draw(st.sampled_from(["nt", "nt", "tsv", "turtle_iter", "turtle", "rdflib", "sm", "endpoint", "ntfiles", "zip", "gz"]))
     nob = chan in ("turtle", "rdflib", "sm", "endpoint")
     g = draw(gg.general(bnodes=not nob, lit_kinds=["word", "lang", "integer"] if chan == "endpoint" else None, max_stmts=22))
     cfg = draw(gg.switches())
@@ -57,6 +57,8 @@ def cases(draw):
         case["target"] = draw(common.target_spec(g))
     if chan == "endpoint":
         case["cache_off"] = draw(st.booleans())
+    if chan in ("ntfiles", "zip"):
+        case["parts"] = draw(st.integers(2, 5))       # files of the list / members of the archive (statement i goes to part i % parts)
     k = draw(st.integers(0, 7))
     if k == 0:
         case["all_prefixes_taken"] = True      # the documented exception: a random prefix is chosen
@@ -76,6 +78,7 @@ def run_case_here(case):
     if case.get("prefixes_taken"):
         kw["namespaces_dict"] = dict(list(NS4.items())[:case["prefixes_taken"]])
     chan = case["chan"]
+    tmpd = None
     if chan == "sm":
         lines = ["%s@%s" % (selectors.render(it["sel"], c10.NSD, it["styles"]), c10.label_text(it["label"])) for it in case["items"]]
         kw["shape_map_raw"] = "\n".join(lines)
@@ -97,6 +100,33 @@ def run_case_here(case):
             kw["input_format"] = chan
         elif chan == "rdflib":
             kw["rdflib_graph"] = to_rdflib(triples)
+        elif chan in ("ntfiles", "zip", "gz"):
+            import tempfile, zipfile, gzip
+            tmpd = tempfile.mkdtemp(prefix="vfc19.")
+            k = case.get("parts", 1)
+            # member / file names are chosen so that their order by name, by hash and by position all differ
+            names = ["m_%s.nt" % w for w in ("kilo", "alpha", "zulu", "echo", "bravo")][:k]
+            parts = [to_nt([t for i, t in enumerate(triples) if i % k == j]) for j in range(k)]
+            if chan == "ntfiles":
+                paths = []
+                for nm, txt in zip(names, parts):
+                    pth = os.path.join(tmpd, nm)
+                    open(pth, "w", encoding="utf-8").write(txt)
+                    paths.append(pth)
+                kw["graph_list_of_files_input"] = paths
+            elif chan == "zip":
+                pth = os.path.join(tmpd, "g.zip")
+                with zipfile.ZipFile(pth, "w") as z:
+                    for nm, txt in zip(names, parts):
+                        z.writestr(nm, txt)
+                kw["graph_file_input"] = pth
+                kw["compression_mode"] = "zip"
+            else:
+                pth = os.path.join(tmpd, "g.nt.gz")
+                with gzip.open(pth, "wt", encoding="utf-8") as f:
+                    f.write(to_nt(triples))
+                kw["graph_file_input"] = pth
+                kw["compression_mode"] = "gz"
         elif chan == "endpoint":
             kw["url_endpoint"] = URL
             kw["disable_endpoint_cache"] = bool(case.get("cache_off"))
@@ -110,6 +140,9 @@ def run_case_here(case):
             text, crash = sut.guarded(go, 60)
     else:
         text, crash = sut.guarded(go, 60)
+    if tmpd is not None:
+        import shutil
+        shutil.rmtree(tmpd, ignore_errors=True)
     if crash is not None:
         rec["err"] = crash.bucket
         return rec
